@@ -80,6 +80,91 @@ m("c06.2-literal", CC, "\"\\r\\n$4\\r\\nmset\\r\\n\"", "\"\\r\\n$4\\r\\nmget\\r\
 m("c06.4-arity", "core/codec/commands.go", "\tReqMset: NargsEvenInf,", "\tReqMset: NargsInf,", "C06", "C06.4")
 m("c06.4-even", "core/codec/commands.go", "\t\tif n < 2 || n%2 == 1 {", "\t\tif n < 2 {", "C06", "C06.4")
 
+# ---- C03.6 / C03.7
+m("c03.6-put-keeps-keys", MS, "\tm.Keys = m.Keys[:0]\n", "", ["C03", "C06"], "C03.6")
+m("c03.6-reset-after", SC, "\troutedFrags = routedFrags[:0]\n\tfor slot, frag := range r.Body {", "\tfor slot, frag := range r.Body {", ["C03", "C01"], "C03.6")
+m("c03.7-put-on-close", EL, "\tdelete(el.connections, c.fd)\n", "\tdelete(el.connections, c.fd)\n\tfor c.connType == ConnClient {\n\t\tmsg := c.dequeueInMsg()\n\t\tif msg == nil {\n\t\t\tbreak\n\t\t}\n\t\tMsgPool.Put(msg)\n\t}\n", ["C03", "C01"], "C03.7")
+
+# ---- C07
+m("c07.1-count-twice", CN, "\tf.Peer.FragDoneNumber++\n", "\tf.Peer.FragDoneNumber += 2\n", "C07", "C07.1")
+m("c07.2-del-no-wait", CS, "\tif f.Peer.FragDoneNumber < len(f.Peer.Body) {\n\t\tlogging.Debugf(\"[%dm|%df][%dc|%ds] del frag done", "\tif f.Peer.FragDoneNumber < 1 {\n\t\tlogging.Debugf(\"[%dm|%df][%dc|%ds] del frag done", "C07", "C07.2")
+m("c07.3-delnum-assign", CS, "\tf.Peer.DelNum += n\n", "\tf.Peer.DelNum = n\n", "C07", "C07.3")
+m("c07.3-mset-last-only", CS, "\tfor _, v := range msg.Body {\n\t\tif !v.Ok {", "\tfor _, v := range msg.Body {\n\t\tif !v.Ok && v == f {", "C07", "C07.3")
+m("c07.4-wrong-index", CS, "\t\t\t\tmsg.RspBody = append(msg.RspBody, msg.Body[slot].Rsp[i]...)\n\t\t\t\tbreak", "\t\t\t\tmsg.RspBody = append(msg.RspBody, msg.Body[slot].Rsp[len(msg.Frags[slot])-1-i]...)\n\t\t\t\tbreak", "C07", "C07.4")
+m("c07.4-no-break", CS, "\t\t\t\tmsg.RspBody = append(msg.RspBody, msg.Body[slot].Rsp[i]...)\n\t\t\t\tbreak\n", "\t\t\t\tmsg.RspBody = append(msg.RspBody, msg.Body[slot].Rsp[i]...)\n", "C07", "C07.4")
+m("c07.4-header-frags", CS, "\tmsg.RspBody = append(msg.RspBody, strconv.Itoa(len(msg.Keys))...)", "\tmsg.RspBody = append(msg.RspBody, strconv.Itoa(len(msg.Frags))...)", "C07", "C07.4")
+
+# ---- C08
+m("c08.1-save-always", EL, "\t\t// incomplete message, waiting for next event polling\n\t\tif err != nil {\n\t\t\tbreak\n\t\t}\n", "\t\t// incomplete message, waiting for next event polling\n\t\tif err != nil || len(c.buffer) == 0 {\n\t\t\tbreak\n\t\t}\n", "C08", "C08.1")
+m("c08.2-shortline-invalid", CC, "\t\tcrlf, err := buf.ReadN(2)\n\t\tif err != nil {\n\t\t\treturn nil, codec.ShortLine\n\t\t}", "\t\tcrlf, err := buf.ReadN(2)\n\t\tif err != nil {\n\t\t\treturn nil, codec.ErrInvalidResp\n\t\t}", ["C08", "C12"], "C08.2")
+m("c08.2-close-any-error", EL, "\t\tif err == codec.ErrInvalidResp {\n\t\t\tlogging.Warnf(\"[%dc] client closed because of invalid resp\", c.Fd())", "\t\tif err != nil && err != errors.New(\"x\") && len(c.buffer) > 4096 {\n\t\t\tlogging.Warnf(\"[%dc] client closed because of invalid resp\", c.Fd())", "C08", "C08.2")
+m("c08.3-no-reset", "core/codec/buff.go", "func NewBuffer(bs []byte) *Buffer {\n\tbuffer.r = 0\n", "func NewBuffer(bs []byte) *Buffer {\n", "C08", "C08.3")
+m("c08.4-no-reset-pool", "core/pkg/pool/ringbuffer/ringbuffer.go", "\tb.Reset()\n", "", "C08", "C08.4")
+
+# ---- C09
+m("c09.1-alldone", EL, "\t\tif !c.inMsgQueue.head.Done {\n", "\t\tif !c.inMsgQueue.AllDone() {\n", "C09", "C09.1")
+m("c09.2-skip-gate", EL, "\t\tif c.inMsgQueue.Empty() {\n\t\t\tlogging.Errorf(\"[%dm|%df][%dc|%ds] redis react happen", "\t\tif r.Type == codec.RspBulk && c.inMsgQueue.count > 64 {\n\t\t\tcontinue\n\t\t}\n\t\tif c.inMsgQueue.Empty() {\n\t\t\tlogging.Errorf(\"[%dm|%df][%dc|%ds] redis react happen", "C09", "C09.2")
+
+# ---- C10
+m("c10.1-frag-pop-next", MS, "func (l *FragQueue) PopHead() {\n\tif l.count == 0 {\n\t\treturn\n\t}\n\tm := l.head\n\tl.count--\n\tif l.count == 0 {\n\t\tl.tail, l.head = nil, nil\n\t} else {\n\t\tm.prev.next = nil\n\t\tl.head = m.prev", "func (l *FragQueue) PopHead() {\n\tif l.count == 0 {\n\t\treturn\n\t}\n\tm := l.head\n\tl.count--\n\tif l.count == 0 {\n\t\tl.tail, l.head = nil, nil\n\t} else {\n\t\tm.prev.next = nil\n\t\tl.head = m.next", "C10", "C10.1")
+m("c10.2-enqueue-before-pop", CN, "\t\tc.dequeueOutFrag()\n\t\tc.enqueueInFrag(head)\n", "\t\tc.enqueueInFrag(head)\n\t\tc.dequeueOutFrag()\n", "C10", "C10.2")
+m("c10.2-prepend", CN, "\t\tbs = append(bs, head.Req)\n", "\t\tbs = append([][]byte{head.Req}, bs...)\n", "C10", "C10.2")
+m("c10.3-deferred-push", CN, "func (c *conn) EnqueueOutFrag(f *Frag) {\n\tc.outFragQueue.PushTail(f)\n", "func (c *conn) EnqueueOutFrag(f *Frag) {\n\t_ = c.loop.poller.Trigger(func(_ interface{}) error { c.outFragQueue.PushTail(f); return nil }, nil)\n", "C10", "C10.3")
+
+# ---- C11
+m("c11.1-del-unguarded", CS, "\tif f.Type != codec.RspInteger {\n\t\tf.Done = true\n\t\tf.Error = fragError(f, codec.ErrUnKnown)\n\t\treturn nil\n\t}\n", "", "C11", "C11.1")
+m("c11.3-no-done", CN, "\t\tmsg.RspBody = append(msg.RspBody[:0], msg.Error.Bytes()...)\n\t\tmsg.Done = true\n", "\t\tmsg.RspBody = append(msg.RspBody[:0], msg.Error.Bytes()...)\n", "C11", "C11.3")
+m("c11.3-siblings", CN, "\t\tfor _, v := range msg.Body {\n\t\t\tv.Done = true\n\t\t}\n\t\treturn f, nil", "\t\treturn f, nil", "C11", "C11.3")
+m("c11.4-continue", EL, "\t\t\t\tlogging.Errorf(\"[%ds] redis response parse failed, close the connection, error: %s\", s.fd, err)\n\t\t\t\treturn el.closeConn(s, err, ConnErr)", "\t\t\t\tlogging.Errorf(\"[%ds] redis response parse failed, close the connection, error: %s\", s.fd, err)\n\t\t\t\tcontinue", "C11", "C11.4")
+
+# ---- C12
+m("c12.1-nilnil", CC, "\t\tif n < 0 {\n\t\t\treturn nil, codec.ErrInvalidResp\n\t\t}", "\t\tif n < 0 {\n\t\t\treturn nil, err\n\t\t}", "C12", "C12.1")
+m("c12.1-sdecode", CS, "\tif f == nil {\n\t\tlogging.Errorf(\"[%ds] empty inFragQueue, rsp: %s\", s.Fd(), utils.FormatRedisRESPMessages(buf.PeekAll()))\n\t\treturn nil, codec.ErrUnKnown\n\t}\n", "", "C12", "C12.1")
+m("c12.3-readn-sum", "core/codec/buff.go", "\tif n > b.leftSize() {\n\t\treturn nil, ShortLine\n\t}\n\tr := b.r", "\tif b.r+n > len(b.buf) {\n\t\treturn nil, ShortLine\n\t}\n\tr := b.r", "C12", "C12.3")
+m("c12.5-oncreact-any", EL, "\t\t// incomplete message, waiting for next event polling\n\t\tif err != nil {\n\t\t\tbreak\n\t\t}\n", "\t\t// incomplete message, waiting for next event polling\n\t\tif err != nil && r == nil && len(c.buffer) < 1 {\n\t\t\tbreak\n\t\t}\n", "C12", "C12.5")
+
+# ---- C13
+m("c13.1-count-redirect", CN, "\tswitch f.Type {\n\tcase codec.RspMoved, codec.RspAsk:", "\tswitch f.Type {\n\tcase codec.RspMoved:", "C13", "C13.1")
+m("c13.2-asking-after", SC, "\t\tsConn.EnqueueOutFrag(asking)\n\t}\n\n\tsConn.EnqueueOutFrag(f)\n", "\t}\n\n\tsConn.EnqueueOutFrag(f)\n", "C13", "C13.2")
+m("c13.2-no-discard", SC, "\t\tasking.Discard = true\n", "", "C13", "C13.2")
+m("c13.2-discard-late", EL, "\t\tif r.Discard {\n\t\t\tcontinue\n\t\t}\n\n\t\tif r.Owner == nil {", "\t\tif r.Owner == nil && !r.Discard {", "C13", "C13.2")
+m("c13.4-offset", MS, "\tcase codec.RspAsk:\n\t\ti = 5", "\tcase codec.RspAsk:\n\t\ti = 6", "C13", "C13.4")
+
+# ---- C14
+m("c14.1-return", "core/cluster.go", "\t\t\tif length > 163840 {\n\t\t\t\tlogging.Errorf(\"[cluster loop] update cluster nodes: nodes info too large > 163840\")\n\t\t\t\tcontinue", "\t\t\tif length > 163840 {\n\t\t\t\tlogging.Errorf(\"[cluster loop] update cluster nodes: nodes info too large > 163840\")\n\t\t\t\treturn", "C14", "C14.1")
+m("c14.2-no-fail", "core/cluster.go", "\t\tif strings.Contains(xs[2], \"fail\") {\n\t\t\tlogging.Warnf(\"[cluster loop] skip redis node because the flag marked as fail, line: %+v\", xs)\n\t\t\tcontinue\n\t\t}\n", "", "C14", "C14.2")
+m("c14.2-wrong-col", "core/cluster.go", "\t\tif strings.Contains(xs[7], \"disconnected\") {", "\t\tif strings.Contains(xs[6], \"disconnected\") {", "C14", "C14.2")
+m("c14.2-loading-and", "core/cluster.go", "\t\t\tif node.Role == Slave && info.Loading {", "\t\t\tif node.Role == Slave && info.Loading && info.MasterLinkStatus != \"up\" {", "C14", "C14.2")
+m("c14.3-changed-early", "core/cluster.go", "\tif c.isChanged(allNodes) {\n\t\tc.setServer(allNodes)\n\t\tc.setReplicaset(allNodes)\n\t\tc.serverChanged = true\n\t}", "\tif c.isChanged(allNodes) {\n\t\tc.serverChanged = true\n\t\tc.setServer(allNodes)\n\t\tc.setReplicaset(allNodes)\n\t}", "C14", "C14.3")
+m("c14.3-threshold", "core/cluster.go", "\tif len(allNodes) < 3 {\n\t\treturn nil, errors.New(\"not enough nodes\")\n\t}\n", "", "C14", "C14.3")
+m("c14.4-no-slots", "core/cluster.go", "fmt.Sprintf(\"%s#%d#%s#%v\", n.Addr, n.Role, n.Name, n.Slots)", "fmt.Sprintf(\"%s#%d#%s#%d\", n.Addr, n.Role, n.Name, len(n.Slots))", "C14", "C14.4")
+m("c14.5-no-upper", "core/cluster.go", "\tif start < 0 || start > end || end >= constant.RedisClusterSlots {", "\tif start < 0 || start > end || end >= constant.RedisClusterSlots*4 {", "C14", "C14.5")
+m("c14.6-no-reset", EL, "\t\tEngineGlobal.Slots2Node.Reset()\n", "", ["C14", "C04"], "C14.6")
+m("c14.6-no-close", EL, "\t\t\t\tv.Close()\n\t\t\t\tdelete(EngineGlobal.ProxyPool, k)", "\t\t\t\t_ = v\n\t\t\t\tdelete(EngineGlobal.ProxyPool, k)", ["C14", "C15"], "C14.6")
+m("c14.7-no-notexist", SC, "\t\tif core.EngineGlobal.Slots2Node.NotExist(slot) {", "\t\tif core.EngineGlobal.Slots2Node.NotExist(slot) && r.Type > codec.ReqWriteCmdStart {", "C14", "C14.7")
+m("c14.8-blocking-send", EL, "\t\t\tselect {\n\t\t\tcase EngineGlobal.clusterChan <- r.RspBody:\n\t\t\tdefault:\n\t\t\t\tlogging.Warnf(\"[%dm|%df][%dc|%ds] cluster info channel blocked, cannot write\", r.MsgId(), r.Id, r.OwnerFd(), s.fd)\n\t\t\t}", "\t\t\tEngineGlobal.clusterChan <- r.RspBody", "C14", "C14.8")
+
+# ---- C15 / C16
+m("c15.3-no-open-test", "core/redis_pool.go", "\t\tif !pc.c.IsOpened() {\n\t\t\tcontinue\n\t\t}\n", "", "C15", "C15.3")
+m("c15.3-drop-initializing", "core/redis_pool.go", "\t\tif !pc.c.IsOpened() {\n", "\t\tif !pc.c.IsOpened() || pc.c.InitializeStatus() != Initialized {\n", ["C15", "C10"], "C15.3")
+m("c15.5-silent-fail", SC, "\t\t\t\tcase codec.UnKnownProxyPoolConn:\n\t\t\t\t\tlogging.Errorf(\"[%dm|%df][%dc] redis node %s dial failed\", r.Id, frag.Id, c.Fd(), addr)\n\t\t\t\t\treturn codec.ErrUnKnownProxyPoolConnError.Bytes(), core.None", "\t\t\t\tcase codec.UnKnownProxyPoolConn:\n\t\t\t\t\tlogging.Errorf(\"[%dm|%df][%dc] redis node %s dial failed\", r.Id, frag.Id, c.Fd(), addr)\n\t\t\t\t\treturn nil, core.None", ["C15", "C01"], "C15.5")
+m("c16.3-timeout-done", EL, "\t\tif frag.Done {\n\t\t\tdeleteFromTimeoutQueue(frag)\n\t\t\tcontinue\n\t\t}\n", "", "C16", "C16.3")
+m("c16.4-no-delete", CN, "\tc.inFragQueue.PopHead()\n\tdeleteFromTimeoutQueue(f)\n", "\tc.inFragQueue.PopHead()\n", "C16", "C16.4")
+m("c16.4-push-on-enqueue", CN, "func (c *conn) EnqueueOutFrag(f *Frag) {\n\tc.outFragQueue.PushTail(f)\n", "func (c *conn) EnqueueOutFrag(f *Frag) {\n\tc.outFragQueue.PushTail(f)\n\tpushToTimeoutQueue(f, c.loop.engine.opts.RedisRequestTimeout)\n", "C16", "C16.4")
+
+# ---- C17 / C18
+m("c17.1-capital", "core/codec/commands.go", "\t\"hgetall\":          ReqHgetall,", "\t\"hgetAll\":          ReqHgetall,", "C17", "C17.1")
+m("c17.1-no-arity", "core/codec/commands.go", "\tReqLinsert: Nargs3,\n", "", "C17", "C17.1")
+m("c17.1-cross-name", "core/codec/commands.go", "\tReqHkeys:            \"hkeys\",", "\tReqHkeys:            \"hvals\",", "C17", "C17.1")
+m("c17.2-no-arity-case", SC, "\tcase codec.ReqWrongArgumentsNumber:\n\t\tlogging.Infof(\"[%dm][%dc] wrong arguments number, type: %d, body: %s\", r.Id, c.Fd(), r.Type, r.BodyString())\n\t\treturn codec.ErrMsgReqWrongArgumentsNumber.Bytes(), core.None\n", "", ["C17", "C12"], "C17.2")
+m("c17.3-total", CC, "\tif rc.sizeTooLarge(buf.ReadSize()) {\n\t\tresp.Type = codec.ReqTooLarge", "\tif rc.sizeTooLarge(buf.TotalSize()) {\n\t\tresp.Type = codec.ReqTooLarge", "C17", "C17.3")
+m("c17.4-no-rsp-limit", CN, "\tif EngineGlobal.sCodec.sizeTooLarge(len(f.RspBody)) {\n\t\tf.Error = codec.ErrMsgRspTooLarge\n\t}\n", "", "C17", "C17.4")
+m("c17.5-lookup-first", "core/codec/commands.go", "func Transform2Type(command []byte, n int) Command {\n\ttoLower(command)\n\tif v, ok := CommandStr2Type[string(command)]; ok {", "func Transform2Type(command []byte, n int) Command {\n\tif v, ok := CommandStr2Type[string(command)]; ok {\n\t\ttoLower(command)", "C17", "C17.5")
+m("c18.1-none-on-reject", SC, "\t\tlogging.Warnf(\"[%dc] unauthorized access from %s\", c.Fd(), access[0])\n\t\treturn nil, core.Close", "\t\tlogging.Warnf(\"[%dc] unauthorized access from %s\", c.Fd(), access[0])\n\t\treturn nil, core.None", "C18", "C18.1")
+m("c18.1-validate-inverted", "core/authip/authip.go", "\tif i.enable {\n\t\tif _, ok := i.Get(ip); !ok {", "\tif !i.enable {\n\t\tif _, ok := i.Get(ip); !ok {", "C18", "C18.1")
+m("c18.2-no-delete", "core/authip/authip.go", "\t\t\t\tIpMap.Del(kv.Key)\n", "", "C18", "C18.2")
+m("c18.3-no-write", "core/authip/authip.go", "\t\t\t\t\tcase ev.Op&fsnotify.Write == fsnotify.Write:\n\t\t\t\t\t\tfallthrough\n", "", "C18", "C18.3")
+
 here = os.path.dirname(os.path.abspath(__file__))
 json.dump(M, open(os.path.join(here, "mutations.json"), "w"), indent=1)
 print(len(M), "mutations")
